@@ -472,6 +472,11 @@ func (w *World) callback(kind int) (func(k int, v int64), int) {
 		if kind == 2 {
 			w.reenterAll(false, k, v)
 		}
+		if kind == 4 {
+			// observer: looks at the cache from inside the callback without changing it
+			w.ExecCache(Op{K: CCount}, true)
+			w.ExecCache(Op{K: CGetWithExpiration, Key: k}, true)
+		}
 	}, id
 }
 
